@@ -33,10 +33,18 @@ def clean():
 def place_demo(k):
     d = os.path.join(wt, "OUT", k)
     first = open(os.path.join(d, "demo.rs")).readline()
-    m = re.match(r"//\s*(\S+\.rs)\s*;\s*(cargo [^(;]*)", first.strip())
-    if not m:
+    line = first.strip()
+    m = re.match(r"//\s*(\S+\.rs)", line)
+    mc = re.findall(r"(cargo (?:test|nextest)[^;()`]*)", line)
+    if not m or not mc:
         return None, None, first
-    rel, cmd = m.group(1), m.group(2).strip()
+    rel, cmd = m.group(1), mc[-1].strip()
+    # "also add `mod X;` to <file>": a private-access demo included from the crate
+    mm = re.search(r"`mod (\w+);`.*?to (crates/\S+\.rs)", line)
+    if mm:
+        host = os.path.join(wt, mm.group(2))
+        with open(host, "a") as f:
+            f.write(f"\n#[cfg(test)]\nmod {mm.group(1)};\n")
     dst = os.path.join(wt, rel)
     os.makedirs(os.path.dirname(dst), exist_ok=True)
     shutil.copy(os.path.join(d, "demo.rs"), dst)
@@ -63,8 +71,9 @@ for k in ks:
             res["demo_patched_rc"] = rc
             res["demo_patched_fails"] = rc != 0 and "error: could not compile" not in out
             res["demo_tail"] = out[-600:]
-            # baseline with the patch (demo file removed so that it is not part of the suite)
-            os.remove(os.path.join(wt, rel))
+            # baseline with the patch (demo removed so that it is not part of the suite; patch re-applied cleanly)
+            clean()
+            sh(["git", "apply", os.path.join(d, "patch.diff")])
             rc, out = sh([os.path.join(ROOT, "bin", "baseline")], timeout=7200)
             res["baseline_rc"] = rc
             res["baseline_line"] = [l for l in out.splitlines() if l.startswith("baseline:")][-1:]
